@@ -81,6 +81,26 @@ class Structure:
         return dict(hh=g(self.hh), alt=g(self.alt), ep=g(self.ep), e1=g(self.e1), e2=g(self.e2))
 
 
+# parameters that the real fg_id_numpy takes besides the data columns (none on the pinned tree); the
+# obligations are repeated for every distinct value of the parameters it reads, see gt.param_variants
+_EXTRA = {}
+
+
+def variants():
+    from _gettsim.groupings import fg_id_numpy
+    from gsv import gt
+    return gt.param_variants(fg_id_numpy)
+
+
+def set_variant(label):
+    for lab, kw in variants():
+        if lab == label:
+            _EXTRA.clear()
+            _EXTRA.update(kw)
+            return
+    raise common.HarnessError(f"no parameter variant {label!r} of fg_id_numpy")
+
+
 def run_fg(st, labels, order=None):
     """real fg_id_numpy on the structure, rows in `order`; returns z3 terms of fg ids per *person*"""
     from _gettsim.groupings import fg_id_numpy
@@ -101,7 +121,7 @@ def run_fg(st, labels, order=None):
     ctx = R.Ctx()
     ctx.key_domain = list(labels)
     v, ctx = R.run(fg_id_numpy, kwargs=dict(p_id=SymArray([labels[i] for i in order], int), hh_id=col(st.hh), alter=col(st.alt),
-                                            p_id_einstandspartner=ptr(st.ep), p_id_elternteil_1=ptr(st.e1), p_id_elternteil_2=ptr(st.e2)), ctx=ctx)
+                                            p_id_einstandspartner=ptr(st.ep), p_id_elternteil_1=ptr(st.e1), p_id_elternteil_2=ptr(st.e2), **_EXTRA), ctx=ctx)
     if v is None:
         raise R.Unsupported("fg_id_numpy raises on every path")
     ids = [None] * n
@@ -130,7 +150,7 @@ def validate_encoding(n, rnd, k=150):
         sym = [z3.simplify(z3.substitute(t, *subs)).as_long() for t in ids]
         lab = lambda p: [(-1 if q < 0 else labels[q]) for q in p]   # noqa: E731
         real = [int(x) for x in fg_id_numpy(numpy.array(labels), numpy.array(vals["hh"]), numpy.array(vals["alt"]),
-                                            numpy.array(lab(vals["ep"])), numpy.array(lab(vals["e1"])), numpy.array(lab(vals["e2"])))]
+                                            numpy.array(lab(vals["ep"])), numpy.array(lab(vals["e1"])), numpy.array(lab(vals["e2"])), **_EXTRA)]
         if sym != real:
             raise common.HarnessError(f"fg_id_numpy encoding disagrees with the real function on {vals}: {sym} vs {real}")
     return k
@@ -213,7 +233,7 @@ def real_partition(vals, labels, order=None):
     n = len(vals["hh"])
     order = list(range(n)) if order is None else list(order)
     arr = lambda x: numpy.array([x[i] for i in order])   # noqa: E731
-    ids = fg_id_numpy(arr(labels), arr(vals["hh"]), arr(vals["alt"]), arr(lab(vals["ep"])), arr(lab(vals["e1"])), arr(lab(vals["e2"])))
+    ids = fg_id_numpy(arr(labels), arr(vals["hh"]), arr(vals["alt"]), arr(lab(vals["ep"])), arr(lab(vals["e1"])), arr(lab(vals["e2"])), **_EXTRA)
     back = [None] * n
     for pos, i in enumerate(order):
         back[i] = int(ids[pos])
@@ -258,26 +278,61 @@ def reproduces(name, vals, n, sep_na=None):
         ida = real_partition(sub, labels[:na])
         return part(ids[:na]) != part(ida) or any(ids[a] == ids[b] for a in range(na) for b in range(na, n))
     if name == "fg_no_error":
-        return False
+        return False   # real_partition above returned, so the real function does not raise on this structure
     return False
 
 
 def run_obligations(ck, pid, n, excl, with_orders=True, with_relabel=True, sep_na=None, timeout=120):
+    vs = variants()
+    ck.extra["fg_parameter_variants"] = [lab or "none (fg_id_numpy takes no parameters)" for lab, _ in vs]
+    for lab, kw in vs:
+        _EXTRA.clear()
+        _EXTRA.update(kw)
+        try:
+            _run_obligations(ck, pid, n, excl, with_orders, with_relabel, sep_na, timeout, lab)
+        finally:
+            _EXTRA.clear()
+
+
+def _run_obligations(ck, pid, n, excl, with_orders, with_relabel, sep_na, timeout, variant):
     rnd = random.Random(common.SEED)
-    k = validate_encoding(min(n, 4), rnd)
+    tag = f" params@{variant}" if variant else ""
+    try:
+        k = validate_encoding(min(n, 4), rnd)
+        obs, funcs = obligations(n, excl, with_orders, with_relabel, sep_na)
+    except R.Unsupported as e:
+        if "raises on every path" not in str(e):
+            raise
+        # the real function fails on every structure with these parameters: show it on the smallest one
+        vals = dict(hh=[0] * n, alt=[30] * n, ep=[-1] * n, e1=[-1] * n, e2=[-1] * n)
+        ck.obligations += 1
+        try:
+            real_partition(vals, LABS[n][0])
+            raise common.HarnessError(f"fg_id_numpy{tag}: encoder sees an error on every path, the real function does not raise")
+        except common.HarnessError:
+            raise
+        except Exception as ex:   # noqa: BLE001
+            ck.violation(["fg_no_error", "every-structure", variant], f"fg_id_numpy{tag} raises {type(ex).__name__}: {ex} on every structure (e.g. {n} singles)",
+                         {"kind": "fgsym", "name": "fg_no_error", "vals": vals, "n": n, "sep_na": None, "variant": variant})
+        return
     ck.extra["fg_encoding_validation_points"] = ck.extra.get("fg_encoding_validation_points", 0) + k
-    obs, funcs = obligations(n, excl, with_orders, with_relabel, sep_na)
     ck.functions |= funcs
     for name, claim, cons, st in obs:
-        r, m = ck.oblige(f"{name} N={n}", cons, timeout,
+        r, m = ck.oblige(f"{name} N={n}{tag}", cons, timeout,
                          sample={"condition": name, "claim": claim, "persons": n, "engine": "rulesym + z3 (real fg_id_numpy through guarded dictionaries)",
-                                 "excluded_structure_classes": list(excl)})
-        ck.nontrivial.add((name, n))
+                                 "excluded_structure_classes": list(excl), "parameters_in_force_at": variant or None})
+        ck.nontrivial.add((name, n, variant))
         if r == "sat":
             vals = st.model_values(m)
             tags = [t for t in CLASSES if z3.is_true(m.eval(st.cls(t), model_completion=True))]
-            if name == "fg_no_error" or reproduces(name, vals, n, sep_na):
-                ck.violation([name.split("[")[0], ",".join(tags) or "unclassified"], f"{name} ({claim}) fails for N={n}: {vals} classes={tags}",
-                             {"kind": "fgsym", "name": name, "vals": vals, "n": n, "sep_na": sep_na})
+            rep = {"kind": "fgsym", "name": name, "vals": vals, "n": n, "sep_na": sep_na, "variant": variant}
+            if name == "fg_no_error":
+                try:
+                    real_partition(vals, LABS[n][0])
+                    common.spurious(pid, f"{name}{tag}: model {vals} does not raise on the real fg_id_numpy")
+                except Exception as ex:   # noqa: BLE001
+                    ck.violation([name, ",".join(tags) or "unclassified"], f"fg_id_numpy{tag} raises {type(ex).__name__} on the valid structure {vals} classes={tags}", rep)
+            elif reproduces(name, vals, n, sep_na):
+                ck.violation([name.split("[")[0], ",".join(tags) or "unclassified"], f"{name} ({claim}){tag} fails for N={n}: {vals} classes={tags}", rep)
             else:
-                common.spurious(pid, f"{name}: model {vals} does not reproduce on the real fg_id_numpy")
+                common.spurious(pid, f"{name}{tag}: model {vals} does not reproduce on the real fg_id_numpy")
